@@ -40,30 +40,15 @@ def cut (content : Bytes) : List Nat → List Bytes
   | [] => if content.isEmpty then [] else [content]
   | n :: ns => content.take n :: cut (content.drop n) ns
 
-/-- `fx=readloop,stdin,append,exit` (or `fx=-`): the repairs the working tree contains (see `Fixes`) -/
-def parseFx (s : String) : Option Fixes :=
-  if !s.startsWith "fx=" then none else
-  let names := ((s.drop 3).toString.splitOn ",").filter (fun x => x ≠ "" && x ≠ "-")
-  if names.all (fun n => n == "readloop" || n == "stdin" || n == "append" || n == "exit") then
-    some { readLoop := names.contains "readloop", stdinToString := names.contains "stdin",
-           appendCreates := names.contains "append", exitFlushes := names.contains "exit" }
-  else none
-
-/-- the optional trailing `fx=` token -/
-def splitFx (args : List String) : Option (List String × Fixes) :=
-  match args.getLast? with
-  | some l => if l.startsWith "fx=" then (parseFx l).map fun fx => (args.dropLast, fx) else some (args, {})
-  | none => some (args, {})
-
-def runReadFx (fx : Fixes) (args : List String) : String :=
+def runRead (args : List String) : String :=
   match args with
   | [src, hexc, calls, sched] =>
-    let h : Option Handle := if src == "file" then some .reader else if src == "pipe" then some .stdin else none
+    let h : Option Unit := if src == "file" || src == "pipe" then some () else none
     let sizes : Option (List Nat) := if sched == "-" then some [] else (sched.splitOn ".").mapM String.toNat?
     match h, PcapDrv.unhexBytes hexc, ((calls.splitOn ",").filter (· ≠ "")).mapM parseCall, sizes with
-    | some h, some content, some cs, some sizes =>
+    | some _, some content, some cs, some sizes =>
       let chunks := (cut content sizes).filter (fun c => !c.isEmpty)
-      let outs := runCalls fx chunkSrc h ([], chunks) (cs.map (·.1))
+      let outs := runCalls chunkSrc ([], chunks) (cs.map (·.1))
       let spec := Spec.FileIo.expect (some content) (cs.map (·.2))
       result (joinWith ";" (outs.map resTok)) ("steps " ++ joinWith ";" (spec.map valTok))
     | _, _, _, _ => "bad-op"
@@ -81,12 +66,7 @@ def blob (s : String) : Option Bytes :=
   | 'b' :: rest => (String.ofList rest).toNat?.map fun v => [UInt8.ofNat (v % 256)]
   | _ => none
 
-def runRead (args : List String) : String :=
-  match splitFx args with
-  | some (a, fx) => runReadFx fx a
-  | none => "bad-op"
-
-def runWriteFx (fx : Fixes) (args : List String) : String :=
+def runWrite (args : List String) : String :=
   match args with
   | [mode, ex, ws, ending] =>
     let existing : Option (Option Bytes) := if ex == "missing" then some none else (blob ex).map some
@@ -99,7 +79,7 @@ def runWriteFx (fx : Fixes) (args : List String) : String :=
         | none => "file=missing"
         | some b => if b.isEmpty then "file=-" else tok "file=" b
       let wTok (ns : List Nat) : String := if ns.isEmpty then "w=-" else "w=" ++ joinWith "." (ns.map toString)
-      let (o, ns, f) := writeRun fx mode existing writes e
+      let (o, ns, f) := writeRun mode existing writes e
       let model := joinWith ";" [match o with | .handle => "open=H" | .err _ => "open=E" | .rterr => "open=rterr", wTok ns, fileTok f]
       let spec := match Spec.FileIo.Mode.ofString mode with
         | none => "steps -;-;-"           -- the documents name four modes only
@@ -110,10 +90,5 @@ def runWriteFx (fx : Fixes) (args : List String) : String :=
       result model spec
     | _, _, _ => "bad-op"
   | _ => "bad-op"
-
-def runWrite (args : List String) : String :=
-  match splitFx args with
-  | some (a, fx) => runWriteFx fx a
-  | none => "bad-op"
 
 end P2sh.Driver.FileDrv
